@@ -29,7 +29,7 @@ Groups = KeyedDict(Str, Opq("Group"), sizes=(0, 1))
 Stat = Obj(CTX + "Statistic", failures=KeyedDict(Str, Groups, sizes=(0, 1, 2)))
 Event = OneOf(
     Obj(EV + "ScenarioFinished", recorder=Obj("schemathesis.engine.recorder:ScenarioRecorder", label=Str), elapsed_time=Real, status=EnumOf("schemathesis.engine:Status"),
-        skip_reason=Opt(Str)),
+        skip_reason=Opt(Str), label=Opt(Str)),  # (the event's own `label` is None for stateful scenarios: the report is keyed by the RECORDER's label, as the statistic is)
     Obj(EV + "NonFatalError", label=Str, info=Opq("ErrInfo")),
     Obj(EV + "EngineFinished", running_time=Real),
     Obj(EV + "EngineStarted"),
@@ -43,7 +43,8 @@ R.extern["junit_xml.to_xml_report_file"] = lambda it, a, k: None
 R.extern["platform.node"] = lambda it, a, k: "host"
 R.contract("spec:ErrInfo.format", args={"self": Opq("ErrInfo")}, returns=Str, trusted=True, note="formats the error for the report")
 R.opaque_classes["ErrInfo"] = "spec:ErrInfo"
-R.contract(JX + "add_failure", args={"test_case": Opq("Any"), "checks": Opq("Any"), "context": Opq("Any")}, returns=NoneT, trusted=True, note="formats grouped failures (C09 code sample)")
+R.contract(JX + "add_failure", args={"test_case": Opq("Any"), "checks": Opq("Any"), "context": Opq("Any")}, returns=NoneT, trusted=True, effects={"reported": "list(checks)", "reported_on": "test_case"},
+           note="formats grouped failures (C09 code sample)")
 R.contract(
     JX + "JunitXMLHandler.handle_event",
     prop="C16",
@@ -51,7 +52,12 @@ R.contract(
           "ctx": Obj(CTX + "ExecutionContext", statistic=Stat, output_config=Opq("OutputConfig")), "event": Event},
     # "Producing a report never crashes or aborts the run, for any event sequence the engine can emit"
     raises=[],
-    ensures={"one_test_case_per_label": "implies(is_instance(event, 'ScenarioFinished'), event.recorder.label in self.test_cases)"},
+    ghost={"reported": None, "reported_on": None},
+    ensures={"one_test_case_per_label": "implies(is_instance(event, 'ScenarioFinished'), event.recorder.label in self.test_cases)",
+             # faithful: a failed scenario's test case carries exactly the failures the statistic stores under the scenario's (recorder) label
+             "failed_scenario_reports_the_failures_stored_for_its_label": "implies(is_instance(event, 'ScenarioFinished') and event.status.name == 'FAILURE' and event.recorder.label in ctx.statistic.failures, "
+             "ghost('reported') is not None and ghost('reported_on') is self.test_cases[event.recorder.label] and ghost('reported') == list(ctx.statistic.failures[event.recorder.label].values()))",
+             "nothing_reported_as_failed_otherwise": "implies(not (is_instance(event, 'ScenarioFinished') and event.status.name == 'FAILURE'), ghost('reported') is None)"},
 )
 if live_finding("F16c"):
     # region of known finding F16c: a FAILURE scenario whose label has no entry in statistic.failures (all its failures were first seen under another label)
